@@ -36,6 +36,7 @@ type LiveOp struct {
 	P2   string `json:"p2,omitempty"`
 	Data string `json:"data,omitempty"`
 	Perm uint32 `json:"perm,omitempty"`
+	Flag int    `json:"flag,omitempty"` // openfile: the raw flag word
 }
 
 // LiveCase: sub-directory chain below the scratch root, how many Sub calls build it, the steps.
@@ -173,6 +174,18 @@ func checkLive(c LiveCase) (string, string) {
 				rerr, serr = os.Chmod(osp(op.P), os.FileMode(op.Perm)), hackpadfs.Chmod(fsys, op.P, hackpadfs.FileMode(op.Perm))
 			case "chtimes":
 				rerr, serr = os.Chtimes(osp(op.P), tm, tm), hackpadfs.Chtimes(fsys, op.P, tm, tm)
+			case "openfile":
+				// the flag word goes to the OS as it is, also the words an FS might be tempted to judge itself (both access bits)
+				var rf *os.File
+				var sf hackpadfs.File
+				rf, rerr = os.OpenFile(osp(op.P), op.Flag, os.FileMode(op.Perm))
+				if rerr == nil {
+					_ = rf.Close()
+				}
+				sf, serr = hackpadfs.OpenFile(fsys, op.P, op.Flag, hackpadfs.FileMode(op.Perm))
+				if serr == nil {
+					_ = sf.Close()
+				}
 			default:
 				panic("unknown op " + op.K)
 			}
@@ -299,7 +312,7 @@ func genLive(rt *rapid.T) LiveCase {
 	}
 	n := rapid.IntRange(1, 7).Draw(rt, "nops")
 	for i := 0; i < n; i++ {
-		op := LiveOp{K: rapid.SampledFrom([]string{"mkdirall", "mkdirall", "mkdir", "writefile", "writefile", "symlink", "symlink", "rename", "remove", "chmod", "chtimes"}).Draw(rt, "k")}
+		op := LiveOp{K: rapid.SampledFrom([]string{"mkdirall", "mkdirall", "mkdir", "writefile", "writefile", "symlink", "symlink", "rename", "remove", "chmod", "chtimes", "openfile"}).Draw(rt, "k")}
 		op.P = pick("p")
 		op.Perm = 0o755
 		switch op.K {
@@ -308,6 +321,10 @@ func genLive(rt *rapid.T) LiveCase {
 			op.Data = rapid.StringMatching("[a-z]{0,6}").Draw(rt, "data")
 		case "symlink", "rename":
 			op.P2 = gen.Random(rt, names, 3, false, "p2")
+		case "openfile":
+			op.Perm = 0o644
+			op.Flag = rapid.SampledFrom([]int{os.O_RDONLY, os.O_WRONLY | os.O_CREATE, os.O_RDWR | os.O_CREATE | os.O_EXCL, os.O_RDONLY | os.O_TRUNC, os.O_WRONLY | os.O_APPEND,
+				os.O_WRONLY | os.O_RDWR, os.O_WRONLY | os.O_RDWR | os.O_CREATE, os.O_RDONLY | os.O_CREATE | os.O_APPEND}).Draw(rt, "flag")
 		case "chmod":
 			op.Perm = uint32(rapid.SampledFrom([]int{0o700, 0o755, 0o644, 0o600}).Draw(rt, "perm"))
 		}
